@@ -205,7 +205,8 @@ def differential(
             bump("ort_env_limit")
             continue
         except (ortrun.OrtRunError, StopIteration, ValueError) as exc:
-            if int_hostile:
+            oob = "out of data bounds" in str(exc) or "indices element out of" in str(exc)
+            if int_hostile or oob:
                 results.append(DrawResult(cls, "ort_exception_observed", text=str(exc)[:300], xs=xs))
                 bump("ort_exception_on_out_of_convention_ints")
             else:
